@@ -341,6 +341,15 @@ def r7_reanchor_at_gs(ctx):
                      % ([n.lineno for n in path if n.lineno][-2:-1], target))
 
 
+def r8_shared_children_order(ctx):
+    """the children of a loop are kept in the order the source gave them: the tombstone sweep that runs whenever a child
+    loop is added (_cleanup via _get_insert_idx) keeps the live nodes in place, and iterations skip deleted nodes
+    (C10.R3, shared)"""
+    from . import c10
+    for o in c10.r3_tombstones(ctx):
+        yield o
+
+
 RULES = [
     Rule('C09.R1', 'the tree under construction is yielded on every path to the end of the generator', r1_flush, floor=1),
     Rule('C09.R2', 'each source segment is placed in the tree or yielded exactly once per iteration', r2_one_disposition, floor=3),
@@ -348,5 +357,6 @@ RULES = [
     Rule('C09.R4', 'every self.method() in x12context resolves; _add_segment attaches to the computed loop, pops before pushes', r4_resolution_and_attachment, floor=18),
     Rule('C09.R5', 'shared with C10.R5: child loops are placed by map position after existing siblings', r5_shared_insertion, floor=6),
     Rule('C09.R6', 'nodes are compared by id/path, never by identity (the map object is replaced at a 278 BHT)', r6_no_identity_of_map_nodes, floor=1),
+    Rule('C09.R8', 'shared with C10.R3: the tombstone sweep keeps the live children in source order', r8_shared_children_order, floor=10),
     Rule('C09.R7', 'both drivers restart every functional group at the GS node of the transaction map', r7_reanchor_at_gs, floor=1),
 ]
